@@ -213,7 +213,7 @@ def evaluate(prop, ctx, case):
     b = ctx.build(sc)
     if not b.ok:
         return [], {}
-    r = common.run_one(b.exe, case.plan.text(), timeout=120)
+    r = common.run_one(b.exe, case.plan.text(), timeout=ctx.run_timeout)
     m, viols = judge_run(sc, case.plan, r, prop.USE_MATCHER, prop.OVERREAD and sc.is_interactive_mode())
     viols.extend(prop.extra_judge(sc, case.plan, r, m))
     out = []
@@ -246,7 +246,7 @@ def features(prop, ctx, case, cls, detail):
     f = {}
     if not b.ok:
         return f
-    r = common.run_one(b.exe, case.plan.text(), timeout=120)
+    r = common.run_one(b.exe, case.plan.text(), timeout=ctx.run_timeout)
     m, _ = judge_run(sc, case.plan, r, prop.USE_MATCHER, False)
     f['more_at_source_end'] = 'more-active-at-source-end' in m.notes
     f['array'] = bool(sc.array)
